@@ -17,4 +17,5 @@ if grep -q '^const resumableReaderBackoff = 250 \* time.Millisecond$' "$src"; th
 else
   echo "build.sh: back-off constant not found in $src; building without overlay (read-fault enumeration will be slow)" >&2
 fi
-( cd "$harness" && go build -tags verif "${overlay_arg[@]}" -o "$out" ./cmd/lsmc )
+# LSMC_TAGS: extra build tags (e.g. "vfs" for the C18 binary)
+( cd "$harness" && go build -tags "verif ${LSMC_TAGS:-}" "${overlay_arg[@]}" -o "$out" ./cmd/lsmc )
